@@ -1,0 +1,364 @@
+//go:build verif
+
+// Contracts for package action/governance (C14 proposal lifecycle and fund accounting; C02, C03, C04 for these handlers).
+// Comment-only file, read by /verif/govc.
+
+package governance
+
+// gGovCtx: what the governance handlers need from the context beyond action.ctxOK (built by app.context.Action /
+// NewProposalMasterStore; A-GOVCTX until ctxOK carries it): the three proposal stores are present, the five stage prefixes
+// of the proposal store differ, its in-memory option set is present, and the fee currency is OLT
+//@ ghost func gGovCtx(ctx *action.Context) bool = wfPS(ctx.ProposalMasterStore.Proposal) && ctx.ProposalMasterStore.ProposalFund != nil && ctx.ProposalMasterStore.ProposalVote != nil && ctx.ProposalMasterStore.Proposal.proposalOptions != nil && ctx.FeePool.feeOpt.FeeCurrency.Name == "OLT"
+
+// shorthands for the entry/exit record of proposal id in a stage of the context's proposal store
+//@ ghost func gaHas(ctx *action.Context, id governance.ProposalID) bool = propHas(ctx.ProposalMasterStore.Proposal, ctx.ProposalMasterStore.Proposal.prefixActive, id)
+//@ ghost func gaRec(ctx *action.Context, id governance.ProposalID) governance.Proposal = propRec(ctx.ProposalMasterStore.Proposal, ctx.ProposalMasterStore.Proposal.prefixActive, id)
+//@ ghost func gfHas(ctx *action.Context, id governance.ProposalID) bool = propHas(ctx.ProposalMasterStore.Proposal, ctx.ProposalMasterStore.Proposal.prefixFailed, id)
+//@ ghost func gfRec(ctx *action.Context, id governance.ProposalID) governance.Proposal = propRec(ctx.ProposalMasterStore.Proposal, ctx.ProposalMasterStore.Proposal.prefixFailed, id)
+
+// store invariant (pointwise in the proposal id), assumed at entry of every body that relies on it (A-STOREINV) and
+// re-established at its exit (ensures C14.store-invariant) by every body that touches the record or the total:
+// the recorded total is non-negative; an active proposal is in progress and, once it has left the funding status, has a
+// recorded total of at least its goal
+//@ ghost func gFundedInv(ctx *action.Context, id governance.ProposalID) bool = fund(ctx.ProposalMasterStore.ProposalFund)[totKey(id)] >= 0 && (gaHas(ctx, id) ==> gaRec(ctx, id).Outcome == ocInProgress() && (gaRec(ctx, id).Status != stFunding() ==> fund(ctx.ProposalMasterStore.ProposalFund)[totKey(id)] >= propGoal(ctx.ProposalMasterStore.Proposal, ctx.ProposalMasterStore.Proposal.prefixActive, id)))
+
+// gAmtOK: the amount passes action.Amount.IsValid: registered currency, value >= 0 (same as transfer.amtOK, which is not
+// loaded when this package is verified alone)
+//@ ghost func gAmtOK(a action.Amount, l *balance.CurrencySet) bool = has(l.nameMap, a.Currency) && l.nameMap[a.Currency].Name != "" && a.Value >= 0
+// ---------------------------------------------------------------- cancel
+
+//@ func (cancelProposalTx).Validate
+//@   implements action.Tx
+//@   ensures result0 ==> len(tx.Signatures) == 1 && sigOK(rawBytesOf(tx.RawTx), unm(tx.Data, "CancelProposal").Proposer, tx.Signatures[0])   // C04.validate
+//@   exports len(sigs) == 1                                                                                                           // C04.validated-facts
+//@   exports raw.Fee.Price.Currency == ctx.FeePool.feeOpt.FeeCurrency.Name && raw.Fee.Price.Value >= 0                               // C04.validated-facts
+
+//@ func (cancelProposalTx).ProcessCheck
+//@   implements action.Tx
+//@ func (cancelProposalTx).ProcessDeliver
+//@   implements action.Tx
+//@ func (cancelProposalTx).ProcessFee
+//@   implements action.Tx
+
+//@ func runCancel
+//@   requires ctxOK(ctx)                                                                                                                // C18.ctx
+//@   assumes gGovCtx(ctx)                                                                                                               // A-GOVCTX proposal stores present and well formed (not yet part of action.ctxOK)
+//@   ensures result0 ==> old(gaHas(ctx, unm(tx.Data, "CancelProposal").ProposalId))                                                   // C14.cancel-guard
+//@   ensures result0 ==> old(gaRec(ctx, unm(tx.Data, "CancelProposal").ProposalId)).Status == stFunding()               // C14.cancel-guard
+//@   ensures result0 ==> ctx.Header.Height <= old(gaRec(ctx, unm(tx.Data, "CancelProposal").ProposalId)).FundingDeadline              // C14.cancel-guard
+//@   ensures result0 ==> str(old(gaRec(ctx, unm(tx.Data, "CancelProposal").ProposalId)).Proposer) == str(unm(tx.Data, "CancelProposal").Proposer)   // C14.cancel-proposer
+//@   ensures result0 ==> !gaHas(ctx, unm(tx.Data, "CancelProposal").ProposalId)                                                       // C14.cancel-move
+//@   ensures result0 ==> gfHas(ctx, unm(tx.Data, "CancelProposal").ProposalId) && gfRec(ctx, unm(tx.Data, "CancelProposal").ProposalId).Status == stCompleted() && gfRec(ctx, unm(tx.Data, "CancelProposal").ProposalId).Outcome == ocCancelled()   // C14.cancel-move
+//@   ensures bal(ctx.Balances) == old(bal(ctx.Balances)) && fund(ctx.ProposalMasterStore.ProposalFund) == old(fund(ctx.ProposalMasterStore.ProposalFund))   // C03.no-ledger-change
+
+// ---------------------------------------------------------------- expire (EXPIRE_VOTES is registered in the external router by EnableGovernance)
+
+//@ func (ExpireVotes).Validate
+//@   implements action.Tx
+//@   ensures result0 ==> len(signedTx.Signatures) == 1 && sigOK(rawBytesOf(signedTx.RawTx), unm(signedTx.Data, "ExpireVotes").ValidatorAddress, signedTx.Signatures[0])   // C04.validate
+//@   exports len(sigs) == 1                                                                                                           // C04.validated-facts
+
+//@ func (ExpireVotes).ProcessCheck
+//@   implements action.Tx
+//@ func (ExpireVotes).ProcessFee
+//@   implements action.Tx
+
+//@ func runExpireVotes
+//@   requires ctxOK(ctx)                                                                                                                // C18.ctx
+//@   assumes gGovCtx(ctx)                                                                                                               // A-GOVCTX proposal stores present and well formed (not yet part of action.ctxOK)
+//@   ensures result0 ==> old(gaHas(ctx, unm(tx.Data, "ExpireVotes").ProposalID))                                                      // C14.expire-guard
+//@   ensures result0 ==> old(gaRec(ctx, unm(tx.Data, "ExpireVotes").ProposalID)).Status == stVoting()                                  // C14.expire-status
+//@   ensures result0 ==> old(gaRec(ctx, unm(tx.Data, "ExpireVotes").ProposalID)).VotingDeadline < ctx.Header.Height                    // C14.expire-deadline
+//@   ensures result0 ==> gfHas(ctx, old(gaRec(ctx, unm(tx.Data, "ExpireVotes").ProposalID)).ProposalID) && gfRec(ctx, old(gaRec(ctx, unm(tx.Data, "ExpireVotes").ProposalID)).ProposalID).Status == stCompleted() && gfRec(ctx, old(gaRec(ctx, unm(tx.Data, "ExpireVotes").ProposalID)).ProposalID).Outcome == ocInsufficientVotes()   // C14.expire-move
+//@   ensures result0 ==> !gaHas(ctx, unm(tx.Data, "ExpireVotes").ProposalID)                                                          // C14.expire-move
+//@   ensures bal(ctx.Balances) == old(bal(ctx.Balances)) && fund(ctx.ProposalMasterStore.ProposalFund) == old(fund(ctx.ProposalMasterStore.ProposalFund))   // C03.no-ledger-change
+
+// ---------------------------------------------------------------- fund
+// shorthands: the decoded message, the fund store, the OLT balance key of an address
+//@ ghost func gFundMsg(data bytes) FundProposal = unm(data, "FundProposal")
+//@ ghost func gFStore(ctx *action.Context) *governance.ProposalFundStore = ctx.ProposalMasterStore.ProposalFund
+
+//@ func (fundProposalTx).Validate
+//@   implements action.Tx
+//@   ensures result0 ==> len(signedTx.Signatures) == 1 && sigOK(rawBytesOf(signedTx.RawTx), unm(signedTx.Data, "FundProposal").FunderAddress, signedTx.Signatures[0])   // C04.validate
+//@   ensures result0 ==> unm(signedTx.Data, "FundProposal").FundValue.Value >= 0                                                     // C02.sign-validated
+//@   exports len(sigs) == 1                                                                                                           // C04.validated-facts
+//@   exports raw.Fee.Price.Currency == ctx.FeePool.feeOpt.FeeCurrency.Name && raw.Fee.Price.Value >= 0                               // C04.validated-facts
+//@   exports gAmtOK(unm(raw.Data, "FundProposal").FundValue, ctx.Currencies)                                                           // C02.validated-facts
+
+//@ func (fundProposalTx).ProcessCheck
+//@   implements action.Tx
+//@ func (fundProposalTx).ProcessDeliver
+//@   implements action.Tx
+//@ func (fundProposalTx).ProcessFee
+//@   implements action.Tx
+
+//@ func runFundProposal
+//@   requires ctxOK(ctx)                                                                                                                // C18.ctx
+//@   assumes gGovCtx(ctx)                                                                                                               // A-GOVCTX proposal stores present and well formed (not yet part of action.ctxOK)
+//@   requires gAmtOK(gFundMsg(tx.Data).FundValue, ctx.Currencies)                                                                       // C02.validated-facts
+//@   assumes gFundedInv(ctx, gFundMsg(tx.Data).ProposalId)                                                                             // A-STOREINV C14 store invariant (every body ensures it: C14.store-invariant)
+//@   ensures result0 ==> old(gaHas(ctx, gFundMsg(tx.Data).ProposalId))                                                                  // C14.fund-guard
+//@   ensures result0 ==> old(gaRec(ctx, gFundMsg(tx.Data).ProposalId)).Status == stFunding()                                            // C14.fund-guard
+//@   ensures result0 ==> ctx.Header.Height <= old(gaRec(ctx, gFundMsg(tx.Data).ProposalId)).FundingDeadline                             // C14.fund-guard
+//@   ensures result0 ==> gFundMsg(tx.Data).FundValue.Value >= 0                                                                        // C14.fund-amount-sign
+// goal reached (entry total + contribution >= goal)  <==>  the record moves to Voting with deadline Height + option
+//@   ensures result0 && old(fund(gFStore(ctx))[totKey(gFundMsg(tx.Data).ProposalId)]) + gFundMsg(tx.Data).FundValue.Value >= old(propGoal(ctx.ProposalMasterStore.Proposal, ctx.ProposalMasterStore.Proposal.prefixActive, gFundMsg(tx.Data).ProposalId)) ==> gaHas(ctx, gFundMsg(tx.Data).ProposalId) && gaRec(ctx, gFundMsg(tx.Data).ProposalId).Status == stVoting() && gaRec(ctx, gFundMsg(tx.Data).ProposalId).VotingDeadline == wrap64(ctx.Header.Height + optVD(ctx.GovernanceStore)[old(gaRec(ctx, gFundMsg(tx.Data).ProposalId)).Type])   // C14.fund-goal-voting
+//@   ensures result0 && old(fund(gFStore(ctx))[totKey(gFundMsg(tx.Data).ProposalId)]) + gFundMsg(tx.Data).FundValue.Value < old(propGoal(ctx.ProposalMasterStore.Proposal, ctx.ProposalMasterStore.Proposal.prefixActive, gFundMsg(tx.Data).ProposalId)) ==> gaHas(ctx, gFundMsg(tx.Data).ProposalId) && gaRec(ctx, gFundMsg(tx.Data).ProposalId) == old(gaRec(ctx, gFundMsg(tx.Data).ProposalId))   // C14.fund-stays-funding
+// accounting: the contribution leaves the funder's balance and enters the funder's record and the proposal total
+//@   ensures result0 ==> bal(ctx.Balances)[balKey(gFundMsg(tx.Data).FunderAddress, gFundMsg(tx.Data).FundValue.Currency)] == old(bal(ctx.Balances))[balKey(gFundMsg(tx.Data).FunderAddress, gFundMsg(tx.Data).FundValue.Currency)] - gFundMsg(tx.Data).FundValue.Value   // C14.fund-accounting
+//@   ensures result0 ==> fund(gFStore(ctx))[indKey(gFundMsg(tx.Data).ProposalId, str(gFundMsg(tx.Data).FunderAddress))] == old(fund(gFStore(ctx)))[indKey(gFundMsg(tx.Data).ProposalId, str(gFundMsg(tx.Data).FunderAddress))] + gFundMsg(tx.Data).FundValue.Value   // C14.fund-accounting
+//@   ensures result0 ==> fund(gFStore(ctx))[totKey(gFundMsg(tx.Data).ProposalId)] == old(fund(gFStore(ctx)))[totKey(gFundMsg(tx.Data).ProposalId)] + gFundMsg(tx.Data).FundValue.Value   // C14.fund-accounting
+//@   ensures result0 ==> balTotal(ctx.Balances)[gFundMsg(tx.Data).FundValue.Currency] + fundSum(gFStore(ctx))[gFundMsg(tx.Data).ProposalId] == old(balTotal(ctx.Balances))[gFundMsg(tx.Data).FundValue.Currency] + old(fundSum(gFStore(ctx)))[gFundMsg(tx.Data).ProposalId]   // C02.conserve
+//@   ensures result0 ==> forall k string :: bal(ctx.Balances)[k] < old(bal(ctx.Balances))[k] ==> k == balKey(gFundMsg(tx.Data).FunderAddress, gFundMsg(tx.Data).FundValue.Currency)   // C03.only-signer-debited
+//@   ensures result0 ==> forall k string :: fund(gFStore(ctx))[k] >= old(fund(gFStore(ctx)))[k]                                          // C03.no-fund-record-decreases
+//@   ensures result0 ==> gFundedInv(ctx, gFundMsg(tx.Data).ProposalId)                                                                 // C14.store-invariant
+// the voting snapshot: every vote record created by this call is a record of the validator store with its current power
+//@   ensures result0 ==> forall a string :: voteHas(gVStore(ctx))[gFundMsg(tx.Data).ProposalId][a] && !old(voteHas(gVStore(ctx)))[gFundMsg(tx.Data).ProposalId][a] ==> vHasRec(ctx.Validators)[a] && votePow(gVStore(ctx))[gFundMsg(tx.Data).ProposalId][a] == vRec(ctx.Validators)[a].Power && voteOpin(gVStore(ctx))[gFundMsg(tx.Data).ProposalId][a] == 0   // C14.fund-snapshot
+//@   ensures result0 && old(fund(gFStore(ctx))[totKey(gFundMsg(tx.Data).ProposalId)]) + gFundMsg(tx.Data).FundValue.Value < old(propGoal(ctx.ProposalMasterStore.Proposal, ctx.ProposalMasterStore.Proposal.prefixActive, gFundMsg(tx.Data).ProposalId)) ==> voteHas(gVStore(ctx)) == old(voteHas(gVStore(ctx))) && votePow(gVStore(ctx)) == old(votePow(gVStore(ctx)))   // C14.fund-snapshot
+//@   invariant loop1: forall a string :: voteHas(gVStore(ctx))[proposal.ProposalID][a] && !old(voteHas(gVStore(ctx)))[proposal.ProposalID][a] ==> vHasRec(ctx.Validators)[a] && votePow(gVStore(ctx))[proposal.ProposalID][a] == vRec(ctx.Validators)[a].Power && voteOpin(gVStore(ctx))[proposal.ProposalID][a] == 0
+//@   invariant loop1: forall j int :: 0 <= j && j < len(validatorList) ==> vHasRec(ctx.Validators)[str(validatorList[j].Address)] && validatorList[j] == vRec(ctx.Validators)[str(validatorList[j].Address)]
+
+// ---------------------------------------------------------------- vote
+//@ ghost func gVoteMsg(data bytes) VoteProposal = unm(data, "VoteProposal")
+//@ ghost func gVStore(ctx *action.Context) *governance.ProposalVoteStore = ctx.ProposalMasterStore.ProposalVote
+//@ ghost func gpHas(ctx *action.Context, id governance.ProposalID) bool = propHas(ctx.ProposalMasterStore.Proposal, ctx.ProposalMasterStore.Proposal.prefixPassed, id)
+//@ ghost func gpRec(ctx *action.Context, id governance.ProposalID) governance.Proposal = propRec(ctx.ProposalMasterStore.Proposal, ctx.ProposalMasterStore.Proposal.prefixPassed, id)
+
+//@ func (voteProposalTx).Validate
+//@   implements action.Tx
+//@   ensures result0 ==> len(tx.Signatures) == 2 && sigOK(rawBytesOf(tx.RawTx), unm(tx.Data, "VoteProposal").Address, tx.Signatures[0]) && sigOK(rawBytesOf(tx.RawTx), unm(tx.Data, "VoteProposal").ValidatorAddress, tx.Signatures[1])   // C04.validate
+//@   exports len(sigs) == 2                                                                                                           // C04.validated-facts
+//@   exports raw.Fee.Price.Currency == ctx.FeePool.feeOpt.FeeCurrency.Name && raw.Fee.Price.Value >= 0                               // C04.validated-facts
+
+//@ func (voteProposalTx).ProcessCheck
+//@   implements action.Tx
+//@ func (voteProposalTx).ProcessDeliver
+//@   implements action.Tx
+//@ func (voteProposalTx).ProcessFee
+//@   implements action.Tx
+
+//@ func runVote
+//@   requires ctxOK(ctx)                                                                                                                // C18.ctx
+//@   assumes gGovCtx(ctx)                                                                                                               // A-GOVCTX proposal stores present and well formed (not yet part of action.ctxOK)
+//@   ensures result0 ==> old(gaHas(ctx, gVoteMsg(tx.Data).ProposalID)) && old(gaRec(ctx, gVoteMsg(tx.Data).ProposalID)).Status == stVoting() && ctx.Header.Height <= old(gaRec(ctx, gVoteMsg(tx.Data).ProposalID)).VotingDeadline   // C14.vote-guard
+// the record updated is the snapshot record of (proposal, validator); only its opinion changes, powers and membership stay
+//@   ensures result0 ==> old(voteHas(gVStore(ctx)))[gVoteMsg(tx.Data).ProposalID][str(gVoteMsg(tx.Data).ValidatorAddress)]          // C14.vote-snapshot-record
+//@   ensures result0 ==> voteOpin(gVStore(ctx))[gVoteMsg(tx.Data).ProposalID] == old(voteOpin(gVStore(ctx)))[gVoteMsg(tx.Data).ProposalID][str(gVoteMsg(tx.Data).ValidatorAddress) := gVoteMsg(tx.Data).Opinion]   // C14.vote-opinion-only
+//@   ensures result0 ==> votePow(gVStore(ctx)) == old(votePow(gVStore(ctx))) && voteHas(gVStore(ctx)) == old(voteHas(gVStore(ctx)))   // C14.vote-snapshot-power
+// the proposal leaves the active store for passed / failed exactly when the tally computed on the updated records says so
+//@   ensures result0 && lastTally(gVStore(ctx))[gVoteMsg(tx.Data).ProposalID] == vrPassed() ==> !gaHas(ctx, gVoteMsg(tx.Data).ProposalID) && gpHas(ctx, gVoteMsg(tx.Data).ProposalID) && gpRec(ctx, gVoteMsg(tx.Data).ProposalID).Status == stCompleted() && gpRec(ctx, gVoteMsg(tx.Data).ProposalID).Outcome == ocCompletedYes()   // C14.vote-tally-move
+//@   ensures result0 && lastTally(gVStore(ctx))[gVoteMsg(tx.Data).ProposalID] == vrFailed() ==> !gaHas(ctx, gVoteMsg(tx.Data).ProposalID) && gfHas(ctx, gVoteMsg(tx.Data).ProposalID) && gfRec(ctx, gVoteMsg(tx.Data).ProposalID).Status == stCompleted() && gfRec(ctx, gVoteMsg(tx.Data).ProposalID).Outcome == ocCompletedNo()   // C14.vote-tally-move
+//@   ensures result0 && lastTally(gVStore(ctx))[gVoteMsg(tx.Data).ProposalID] == vrTBD() ==> pHas(ctx.ProposalMasterStore.Proposal) == old(pHas(ctx.ProposalMasterStore.Proposal)) && pRec(ctx.ProposalMasterStore.Proposal) == old(pRec(ctx.ProposalMasterStore.Proposal))   // C14.vote-tally-move
+//@   ensures result0 ==> lastTally(gVStore(ctx))[gVoteMsg(tx.Data).ProposalID] == vrPassed() || lastTally(gVStore(ctx))[gVoteMsg(tx.Data).ProposalID] == vrFailed() || lastTally(gVStore(ctx))[gVoteMsg(tx.Data).ProposalID] == vrTBD()   // C14.vote-tally-move
+// the tally uses the pass percentage recorded in the proposal when it was created
+//@   claims result0 ==> lastTallyPass(gVStore(ctx))[gVoteMsg(tx.Data).ProposalID] == old(gaRec(ctx, gVoteMsg(tx.Data).ProposalID)).PassPercentage   // C14.vote-pass-percentage
+//@   ensures result0 ==> lastTallyPass(gVStore(ctx))[gVoteMsg(tx.Data).ProposalID] == optPass(ctx.GovernanceStore)[old(gaRec(ctx, gVoteMsg(tx.Data).ProposalID)).Type]   // C14.vote-pass-percentage-option
+// ... and that tally is the decision rule gTally applied to the sums of the snapshot powers by (updated) recorded opinion
+//@   ensures result0 ==> lastTally(gVStore(ctx))[gVoteMsg(tx.Data).ProposalID] == gTallyOf(gVStore(ctx), gVoteMsg(tx.Data).ProposalID, optPass(ctx.GovernanceStore)[old(gaRec(ctx, gVoteMsg(tx.Data).ProposalID)).Type])   // C14.vote-tally-rule
+//@   ensures result0 ==> bal(ctx.Balances) == old(bal(ctx.Balances)) && fund(gFStore(ctx)) == old(fund(gFStore(ctx)))                 // C02.conserve
+
+// ---------------------------------------------------------------- withdraw
+//@ ghost func gWdMsg(data bytes) WithdrawFunds = unm(data, "WithdrawFunds")
+// the ids map of a CurrencySet only holds registered currencies (Register fills both maps)
+//@ ghost func gCurIdOK(l *balance.CurrencySet) bool = l != nil && l.idMap != nil && (forall i int :: has(l.idMap, i) ==> has(l.nameMap, l.idMap[i].Name))
+// eligible(ps, p, id, total, h): the record of id under stage prefix p may be withdrawn from at height h with recorded total `total`
+//@ ghost func gRefundable(ps *governance.ProposalStore, p bytes, id governance.ProposalID, total int, h int) bool = propHas(ps, p, id) && (propRec(ps, p, id).Outcome == ocCancelled() || propRec(ps, p, id).Outcome == ocInsufficientFunds() || (total < propGoal(ps, p, id) && h > propRec(ps, p, id).FundingDeadline))
+
+//@ func (WithdrawFunds).Validate
+//@   implements action.Tx
+//@   ensures result0 ==> len(signedTx.Signatures) == 1 && sigOK(rawBytesOf(signedTx.RawTx), unm(signedTx.Data, "WithdrawFunds").Funder, signedTx.Signatures[0])   // C04.validate
+//@   ensures result0 ==> unm(signedTx.Data, "WithdrawFunds").WithdrawValue.Value >= 0                                                // C02.sign-validated
+//@   exports len(sigs) == 1                                                                                                           // C04.validated-facts
+//@   exports raw.Fee.Price.Currency == ctx.FeePool.feeOpt.FeeCurrency.Name && raw.Fee.Price.Value >= 0                               // C04.validated-facts
+//@   exports gAmtOK(unm(raw.Data, "WithdrawFunds").WithdrawValue, ctx.Currencies)                                                      // C02.validated-facts
+
+//@ func (WithdrawFunds).ProcessCheck
+//@   implements action.Tx
+//@ func (WithdrawFunds).ProcessDeliver
+//@   implements action.Tx
+//@ func (WithdrawFunds).ProcessFee
+//@   implements action.Tx
+
+//@ func runWithdraw
+//@   requires ctxOK(ctx)                                                                                                                // C18.ctx
+//@   assumes gGovCtx(ctx)                                                                                                               // A-GOVCTX proposal stores present and well formed (not yet part of action.ctxOK)
+//@   requires gAmtOK(gWdMsg(signedTx.Data).WithdrawValue, ctx.Currencies)                                                               // C02.validated-facts
+//@   assumes gFundedInv(ctx, gWdMsg(signedTx.Data).ProposalID)                                                                         // A-STOREINV C14 store invariant (every body ensures it: C14.store-invariant)
+// only for cancelled / insufficient-funds / deadline-missed proposals (in whichever stage store the record is)
+//@   ensures result0 ==> old(gRefundable(ctx.ProposalMasterStore.Proposal, ctx.ProposalMasterStore.Proposal.prefixActive, gWdMsg(signedTx.Data).ProposalID, fund(gFStore(ctx))[totKey(gWdMsg(signedTx.Data).ProposalID)], ctx.Header.Height)) || old(gRefundable(ctx.ProposalMasterStore.Proposal, ctx.ProposalMasterStore.Proposal.prefixPassed, gWdMsg(signedTx.Data).ProposalID, fund(gFStore(ctx))[totKey(gWdMsg(signedTx.Data).ProposalID)], ctx.Header.Height)) || old(gRefundable(ctx.ProposalMasterStore.Proposal, ctx.ProposalMasterStore.Proposal.prefixFailed, gWdMsg(signedTx.Data).ProposalID, fund(gFStore(ctx))[totKey(gWdMsg(signedTx.Data).ProposalID)], ctx.Header.Height)) || old(gRefundable(ctx.ProposalMasterStore.Proposal, ctx.ProposalMasterStore.Proposal.prefixFinalized, gWdMsg(signedTx.Data).ProposalID, fund(gFStore(ctx))[totKey(gWdMsg(signedTx.Data).ProposalID)], ctx.Header.Height)) || old(gRefundable(ctx.ProposalMasterStore.Proposal, ctx.ProposalMasterStore.Proposal.prefixFinalizeFailed, gWdMsg(signedTx.Data).ProposalID, fund(gFStore(ctx))[totKey(gWdMsg(signedTx.Data).ProposalID)], ctx.Header.Height))   // C14.withdraw-guard
+// a proposal is declared "insufficient funds" only from the funding stage (moves only forward)
+//@   ensures result0 && old(gaHas(ctx, gWdMsg(signedTx.Data).ProposalID)) && old(gaRec(ctx, gWdMsg(signedTx.Data).ProposalID)).Outcome == ocInProgress() ==> old(gaRec(ctx, gWdMsg(signedTx.Data).ProposalID)).Status == stFunding()   // C14.withdraw-only-from-funding
+//@   ensures result0 ==> gFundedInv(ctx, gWdMsg(signedTx.Data).ProposalID)                                                             // C14.store-invariant
+//@   ensures result0 ==> fund(gFStore(ctx))[indKey(gWdMsg(signedTx.Data).ProposalID, str(gWdMsg(signedTx.Data).Funder))] == old(fund(gFStore(ctx)))[indKey(gWdMsg(signedTx.Data).ProposalID, str(gWdMsg(signedTx.Data).Funder))] - gWdMsg(signedTx.Data).WithdrawValue.Value   // C14.withdraw-accounting
+//@   ensures result0 ==> old(fund(gFStore(ctx)))[indKey(gWdMsg(signedTx.Data).ProposalID, str(gWdMsg(signedTx.Data).Funder))] >= gWdMsg(signedTx.Data).WithdrawValue.Value   // C14.withdraw-accounting
+//@   ensures result0 ==> fund(gFStore(ctx))[totKey(gWdMsg(signedTx.Data).ProposalID)] == old(fund(gFStore(ctx)))[totKey(gWdMsg(signedTx.Data).ProposalID)] - gWdMsg(signedTx.Data).WithdrawValue.Value   // C14.withdraw-accounting
+//@   ensures result0 ==> bal(ctx.Balances)[balKey(gWdMsg(signedTx.Data).Beneficiary, gWdMsg(signedTx.Data).WithdrawValue.Currency)] == old(bal(ctx.Balances))[balKey(gWdMsg(signedTx.Data).Beneficiary, gWdMsg(signedTx.Data).WithdrawValue.Currency)] + gWdMsg(signedTx.Data).WithdrawValue.Value   // C14.withdraw-accounting
+//@   ensures result0 ==> gWdMsg(signedTx.Data).WithdrawValue.Value >= 0                                                               // C14.withdraw-amount-sign
+//@   ensures result0 ==> balTotal(ctx.Balances)[gWdMsg(signedTx.Data).WithdrawValue.Currency] + fundSum(gFStore(ctx))[gWdMsg(signedTx.Data).ProposalID] == old(balTotal(ctx.Balances))[gWdMsg(signedTx.Data).WithdrawValue.Currency] + old(fundSum(gFStore(ctx)))[gWdMsg(signedTx.Data).ProposalID]   // C02.conserve
+//@   ensures result0 ==> forall k string :: bal(ctx.Balances)[k] >= old(bal(ctx.Balances))[k]                                          // C03.no-balance-debited
+//@   ensures result0 ==> forall k string :: fund(gFStore(ctx))[k] < old(fund(gFStore(ctx)))[k] ==> k == indKey(gWdMsg(signedTx.Data).ProposalID, str(gWdMsg(signedTx.Data).Funder)) || k == totKey(gWdMsg(signedTx.Data).ProposalID)   // C03.only-signer-record-debited
+
+// ---------------------------------------------------------------- create
+//@ ghost func gCrMsg(data bytes) CreateProposal = unm(data, "CreateProposal")
+//@ ghost func gAnyHas(ctx *action.Context, id governance.ProposalID) bool = gaHas(ctx, id) || gpHas(ctx, id) || gfHas(ctx, id) || propHas(ctx.ProposalMasterStore.Proposal, ctx.ProposalMasterStore.Proposal.prefixFinalized, id) || propHas(ctx.ProposalMasterStore.Proposal, ctx.ProposalMasterStore.Proposal.prefixFinalizeFailed, id)
+
+//@ func (CreateProposal).Validate
+//@   implements action.Tx
+//@   ensures result0 ==> len(signedTx.Signatures) == 1 && sigOK(rawBytesOf(signedTx.RawTx), unm(signedTx.Data, "CreateProposal").Proposer, signedTx.Signatures[0])   // C04.validate
+//@   assumes gCurIdOK(ctx.Currencies)                                                                                                 // A-GENESIS a currency filed under an id is also filed under its name (CurrencySet.Register fills both maps)
+//@   exports len(sigs) == 1                                                                                                           // C04.validated-facts
+//@   exports raw.Fee.Price.Currency == ctx.FeePool.feeOpt.FeeCurrency.Name && raw.Fee.Price.Value >= 0                               // C04.validated-facts
+//@   exports has(ctx.Currencies.nameMap, unm(raw.Data, "CreateProposal").InitialFunding.Currency)                                     // C14.validated-facts
+
+//@ func (CreateProposal).ProcessCheck
+//@   implements action.Tx
+//@ func (CreateProposal).ProcessDeliver
+//@   implements action.Tx
+//@ func (CreateProposal).ProcessFee
+//@   implements action.Tx
+
+// For ProposalTypeConfigUpdate the body calls a function value taken from the map ctx.GovUpdate.GovernanceUpdateFunction in
+// ValidateOnly mode (govUpdate.go: every update function returns before its Set... call when validationOnly is set):
+// `dyncalls pure` = that call modifies nothing.
+//@ func runTx
+//@   requires ctxOK(ctx)                                                                                                                // C18.ctx
+//@   assumes gGovCtx(ctx)                                                                                                               // A-GOVCTX proposal stores present and well formed (not yet part of action.ctxOK)
+//@   dyncalls pure
+//@   requires has(ctx.Currencies.nameMap, gCrMsg(tx.Data).InitialFunding.Currency)                                                    // C14.validated-facts
+//@   assumes gFundedInv(ctx, gCrMsg(tx.Data).ProposalID)                                                                               // A-STOREINV C14 store invariant (every body ensures it: C14.store-invariant)
+//@   ensures result0 ==> gFundedInv(ctx, gCrMsg(tx.Data).ProposalID)                                                                   // C14.store-invariant
+//@   ensures result0 ==> !old(gAnyHas(ctx, gCrMsg(tx.Data).ProposalID))           // C14.create-fresh-id
+//@   ensures result0 ==> gaHas(ctx, gCrMsg(tx.Data).ProposalID) && gaRec(ctx, gCrMsg(tx.Data).ProposalID).Status == stFunding() && gaRec(ctx, gCrMsg(tx.Data).ProposalID).Outcome == ocInProgress() && str(gaRec(ctx, gCrMsg(tx.Data).ProposalID).Proposer) == str(gCrMsg(tx.Data).Proposer)   // C14.create-starts-funding
+//@   ensures result0 ==> gaRec(ctx, gCrMsg(tx.Data).ProposalID).FundingDeadline > ctx.Header.Height && gaRec(ctx, gCrMsg(tx.Data).ProposalID).PassPercentage == optPass(ctx.GovernanceStore)[gCrMsg(tx.Data).ProposalType] && wrap64(gaRec(ctx, gCrMsg(tx.Data).ProposalID).VotingDeadline - gaRec(ctx, gCrMsg(tx.Data).ProposalID).FundingDeadline) == optVD(ctx.GovernanceStore)[gCrMsg(tx.Data).ProposalType]   // C14.create-deadlines
+//@   ensures result0 ==> gCrMsg(tx.Data).InitialFunding.Value >= 0 && gCrMsg(tx.Data).InitialFunding.Value < propGoal(ctx.ProposalMasterStore.Proposal, ctx.ProposalMasterStore.Proposal.prefixActive, gCrMsg(tx.Data).ProposalID)   // C14.create-initial-funding
+//@   ensures result0 ==> bal(ctx.Balances)[balKey(gCrMsg(tx.Data).Proposer, gCrMsg(tx.Data).InitialFunding.Currency)] == old(bal(ctx.Balances))[balKey(gCrMsg(tx.Data).Proposer, gCrMsg(tx.Data).InitialFunding.Currency)] - gCrMsg(tx.Data).InitialFunding.Value   // C14.create-accounting
+//@   ensures result0 ==> fund(gFStore(ctx))[indKey(gCrMsg(tx.Data).ProposalID, str(gCrMsg(tx.Data).Proposer))] == old(fund(gFStore(ctx)))[indKey(gCrMsg(tx.Data).ProposalID, str(gCrMsg(tx.Data).Proposer))] + gCrMsg(tx.Data).InitialFunding.Value && fund(gFStore(ctx))[totKey(gCrMsg(tx.Data).ProposalID)] == old(fund(gFStore(ctx)))[totKey(gCrMsg(tx.Data).ProposalID)] + gCrMsg(tx.Data).InitialFunding.Value   // C14.create-accounting
+//@   ensures result0 ==> balTotal(ctx.Balances)[gCrMsg(tx.Data).InitialFunding.Currency] + fundSum(gFStore(ctx))[gCrMsg(tx.Data).ProposalID] == old(balTotal(ctx.Balances))[gCrMsg(tx.Data).InitialFunding.Currency] + old(fundSum(gFStore(ctx)))[gCrMsg(tx.Data).ProposalID]   // C02.conserve
+//@   ensures result0 ==> forall k string :: bal(ctx.Balances)[k] < old(bal(ctx.Balances))[k] ==> k == balKey(gCrMsg(tx.Data).Proposer, gCrMsg(tx.Data).InitialFunding.Currency)   // C03.only-signer-debited
+//@   ensures result0 ==> forall k string :: fund(gFStore(ctx))[k] >= old(fund(gFStore(ctx)))[k]   // C03.no-fund-record-decreases
+
+// ---------------------------------------------------------------- finalize: fund distribution
+
+// share = floor(total * p / 10^6) with p = gPct(percentage) = int64(percentage * 10000); the tracker is reduced by exactly
+// the share
+// gCum(tracker): ghost cumulative percentage (in 1/10^6) taken off a tracker coin so far; it restarts from zero whenever the
+// tracker still equals the total. Invariant carried from call to call: tracker * 10^6 >= total * (10^6 - gCum(tracker)),
+// which keeps the tracker non-negative as long as the percentages taken sum to at most 100 %.
+//@ model gCum(*balance.Coin) int
+//@ func getPercentageCoin
+//@   requires totalFunds != nil && fundTracker != nil && totalFunds != fundTracker && totalFunds.Amount != nil && fundTracker.Amount != nil && fundTracker.Currency.Name == totalFunds.Currency.Name
+//@   modifies *fundTracker, gCum(fundTracker)
+//@   update gCum(fundTracker) := (old(big(fundTracker.Amount)) == old(big(totalFunds.Amount)) ? 0 : old(gCum(fundTracker))) + gPct(percentage)
+//@   ensures result.Amount != nil && fresh(result.Amount) && result.Currency == totalFunds.Currency                                   // C14.share
+//@   ensures big(result.Amount) == big(totalFunds.Amount) * gPct(percentage) / 1000000                                                // C14.share-floor
+//@   ensures fundTracker.Amount != nil && fresh(fundTracker.Amount) && big(fundTracker.Amount) == old(big(fundTracker.Amount)) - big(result.Amount) && fundTracker.Currency == old(fundTracker.Currency)   // C14.share-tracked
+//@   ensures big(totalFunds.Amount) >= 0 && gPct(percentage) >= 0 ==> big(result.Amount) >= 0 && big(result.Amount) * 1000000 <= big(totalFunds.Amount) * gPct(percentage)   // C14.share-bounds
+//@   ensures gCum(fundTracker) == (old(big(fundTracker.Amount)) == old(big(totalFunds.Amount)) ? 0 : old(gCum(fundTracker))) + gPct(percentage)   // C14.tracker-bound
+//@   ensures big(totalFunds.Amount) >= 0 && gPct(percentage) >= 0 && (old(big(fundTracker.Amount)) == old(big(totalFunds.Amount)) || old(big(fundTracker.Amount)) * 1000000 >= big(totalFunds.Amount) * (1000000 - old(gCum(fundTracker)))) ==> big(fundTracker.Amount) * 1000000 >= big(totalFunds.Amount) * (1000000 - gCum(fundTracker))   // C14.tracker-bound
+//@   ensures big(totalFunds.Amount) >= 0 && gCum(fundTracker) <= 1000000 && big(fundTracker.Amount) * 1000000 >= big(totalFunds.Amount) * (1000000 - gCum(fundTracker)) ==> big(fundTracker.Amount) >= 0   // C14.tracker-bound
+
+// ---------------------------------------------------------------- finalize: moving the record
+//@ ghost func gzHas(ctx *action.Context, id governance.ProposalID) bool = propHas(ctx.ProposalMasterStore.Proposal, ctx.ProposalMasterStore.Proposal.prefixFinalized, id)
+//@ ghost func gzfHas(ctx *action.Context, id governance.ProposalID) bool = propHas(ctx.ProposalMasterStore.Proposal, ctx.ProposalMasterStore.Proposal.prefixFinalizeFailed, id)
+
+// success: the record is filed under "finalized" and is gone from "passed" in the same call
+//@ func setToFinalizeFromPassed
+//@   requires ctxOK(ctx) && gGovCtx(ctx) && proposal != nil
+//@   modifies ctx.ProposalMasterStore.Proposal.prefix, pHas(ctx.ProposalMasterStore.Proposal), pRec(ctx.ProposalMasterStore.Proposal), pGoal(ctx.ProposalMasterStore.Proposal), vHas(ctx.ProposalMasterStore.Proposal.state), vVal(ctx.ProposalMasterStore.Proposal.state), gasOut(ctx.ProposalMasterStore.Proposal.state)
+//@   ensures result == nil ==> gzHas(ctx, proposal.ProposalID) && !gpHas(ctx, proposal.ProposalID)                                    // C14.finalize-leaves-passed
+//@   ensures forall id governance.ProposalID :: id != proposal.ProposalID ==> gaHas(ctx, id) == old(gaHas(ctx, id)) && gpHas(ctx, id) == old(gpHas(ctx, id)) && gfHas(ctx, id) == old(gfHas(ctx, id)) && gzHas(ctx, id) == old(gzHas(ctx, id)) && gzfHas(ctx, id) == old(gzfHas(ctx, id))   // C14.finalize-frame
+//@   ensures gaHas(ctx, proposal.ProposalID) == old(gaHas(ctx, proposal.ProposalID)) && gfHas(ctx, proposal.ProposalID) == old(gfHas(ctx, proposal.ProposalID)) && gzfHas(ctx, proposal.ProposalID) == old(gzfHas(ctx, proposal.ProposalID))   // C14.finalize-frame
+
+//@ func setToFinalizeFromFailed
+//@   requires ctxOK(ctx) && gGovCtx(ctx) && proposal != nil
+//@   modifies ctx.ProposalMasterStore.Proposal.prefix, pHas(ctx.ProposalMasterStore.Proposal), pRec(ctx.ProposalMasterStore.Proposal), pGoal(ctx.ProposalMasterStore.Proposal), vHas(ctx.ProposalMasterStore.Proposal.state), vVal(ctx.ProposalMasterStore.Proposal.state), gasOut(ctx.ProposalMasterStore.Proposal.state)
+//@   ensures result == nil ==> gzHas(ctx, proposal.ProposalID) && !gfHas(ctx, proposal.ProposalID)                                    // C14.finalize-leaves-failed
+//@   ensures gaHas(ctx, proposal.ProposalID) == old(gaHas(ctx, proposal.ProposalID)) && gpHas(ctx, proposal.ProposalID) == old(gpHas(ctx, proposal.ProposalID)) && gzfHas(ctx, proposal.ProposalID) == old(gzfHas(ctx, proposal.ProposalID))   // C14.finalize-frame
+
+// setToFinalizeFailed always deletes from the PASSED store, also when the proposal was read from the FAILED store
+//@ func setToFinalizeFailed
+//@   requires ctxOK(ctx) && gGovCtx(ctx) && proposal != nil
+//@   modifies ctx.ProposalMasterStore.Proposal.prefix, pHas(ctx.ProposalMasterStore.Proposal), pRec(ctx.ProposalMasterStore.Proposal), pGoal(ctx.ProposalMasterStore.Proposal), vHas(ctx.ProposalMasterStore.Proposal.state), vVal(ctx.ProposalMasterStore.Proposal.state), gasOut(ctx.ProposalMasterStore.Proposal.state)
+//@   ensures result == nil ==> gzfHas(ctx, proposal.ProposalID) && !gpHas(ctx, proposal.ProposalID)                                   // C14.finalize-leaves-passed
+//@   claims result == nil ==> !gfHas(ctx, proposal.ProposalID)                                                                        // C14.finalize-leaves-failed
+//@   ensures gaHas(ctx, proposal.ProposalID) == old(gaHas(ctx, proposal.ProposalID)) && gfHas(ctx, proposal.ProposalID) == old(gfHas(ctx, proposal.ProposalID)) && gzHas(ctx, proposal.ProposalID) == old(gzHas(ctx, proposal.ProposalID))   // C14.finalize-frame
+
+// distributeFunds: T = recorded total of the proposal (>= 0: store invariant). Every share s = floor(T * gPct(x) / 10^6) is
+// taken off a tracker that starts at T; validators get n * floor(s1/n), proposer / bounty / execution get their shares, the
+// burn share is only taken off the tracker, the rest of the tracker goes to the fee pool; then the fund records are deleted.
+// So  paid + fee-pool share = T - burn - (s1 mod n):  never more than T - burn, never less than T - burn - s1.
+//@ ghost func gShare(t int, x float64) int = t * gPct(x) / 1000000
+//@ func distributeFunds
+//@   requires ctxOK(ctx) && gGovCtx(ctx) && proposal != nil && proposalDistribution != nil
+//@   requires gDistOK(*proposalDistribution)                                                                                          // C14.distribution-percentages
+//@   requires fund(gFStore(ctx))[totKey(proposal.ProposalID)] >= 0                                                                    // C14.store-invariant
+//@   modifies bal(ctx.Balances), balTotal(ctx.Balances), fee(ctx.FeePool)["00000000000000000000"], feeTotal(ctx.FeePool), fund(gFStore(ctx)), fundBad(gFStore(ctx)), fundSum(gFStore(ctx))[proposal.ProposalID], vHas(ctx.Balances.State), vVal(ctx.Balances.State), vHas(ctx.FeePool.state), vVal(ctx.FeePool.state), vHas(gFStore(ctx).State), vVal(gFStore(ctx).State)
+//@   ensures result == nil ==> fund(gFStore(ctx))[totKey(proposal.ProposalID)] == 0                                                   // C14.funds-deleted
+//@   ensures result == nil ==> forall c string :: c != "OLT" ==> balTotal(ctx.Balances)[c] == old(balTotal(ctx.Balances))[c]          // C02.conserve
+// never exceeding what was contributed (and how much less: the burn share and at most the validators' rounding remainder)
+//@   ensures result == nil && !old(fundBad(gFStore(ctx)))[totKey(proposal.ProposalID)] ==> (balTotal(ctx.Balances)["OLT"] - old(balTotal(ctx.Balances))["OLT"]) + (feeTotal(ctx.FeePool) - old(feeTotal(ctx.FeePool))) <= old(fund(gFStore(ctx)))[totKey(proposal.ProposalID)] - gShare(old(fund(gFStore(ctx)))[totKey(proposal.ProposalID)], proposalDistribution.Burn)   // C14.distribute-at-most-total
+//@   ensures result == nil && !old(fundBad(gFStore(ctx)))[totKey(proposal.ProposalID)] ==> (balTotal(ctx.Balances)["OLT"] - old(balTotal(ctx.Balances))["OLT"]) + (feeTotal(ctx.FeePool) - old(feeTotal(ctx.FeePool))) >= old(fund(gFStore(ctx)))[totKey(proposal.ProposalID)] - gShare(old(fund(gFStore(ctx)))[totKey(proposal.ProposalID)], proposalDistribution.Burn) - gShare(old(fund(gFStore(ctx)))[totKey(proposal.ProposalID)], proposalDistribution.Validators)   // C14.distribute-at-least
+//@   ensures result == nil && old(fundBad(gFStore(ctx)))[totKey(proposal.ProposalID)] ==> balTotal(ctx.Balances)["OLT"] == old(balTotal(ctx.Balances))["OLT"] && feeTotal(ctx.FeePool) == old(feeTotal(ctx.FeePool))   // C14.distribute-at-most-total
+// the exact equality of the task statement does not hold: the burn share and the validators' remainder are destroyed
+//@   claims result == nil ==> (balTotal(ctx.Balances)["OLT"] - old(balTotal(ctx.Balances))["OLT"]) + (feeTotal(ctx.FeePool) - old(feeTotal(ctx.FeePool))) == old(fund(gFStore(ctx)))[totKey(proposal.ProposalID)]   // C14.distribute-exact
+//@   invariant loop1: 0 <= $i && $i <= len(validatorList)
+//@   invariant loop1: fundTracker.Amount != nil && totalFundsCoin.Amount != nil && fundTracker.Currency.Name == "OLT" && totalFundsCoin.Currency.Name == "OLT" && validatorEarningOLT.Amount != nil && validatorEarningOLT.Currency.Name == "OLT"
+//@   invariant loop1: balTotal(ctx.Balances)["OLT"] == old(balTotal(ctx.Balances))["OLT"] + $i * big(validatorEarningOLT.Amount)
+//@   invariant loop1: $i * big(validatorEarningOLT.Amount) <= gShare(big(totalFundsCoin.Amount), proposalDistribution.Validators) && $i * big(validatorEarningOLT.Amount) >= 0
+//@   invariant loop1: big(validatorEarningOLT.Amount) >= 0 && len(validatorList) * big(validatorEarningOLT.Amount) <= gShare(big(totalFundsCoin.Amount), proposalDistribution.Validators) && gShare(big(totalFundsCoin.Amount), proposalDistribution.Validators) >= 0
+//@   invariant loop1: forall c string :: c != "OLT" ==> balTotal(ctx.Balances)[c] == old(balTotal(ctx.Balances))[c]
+
+// ---------------------------------------------------------------- finalize (PROPOSAL_FINALIZE is registered in the external router by EnableGovernance)
+//@ ghost func gFinId(data bytes) governance.ProposalID = unm(data, "FinalizeProposal").ProposalID
+// (engine work-around, always true: names the ledgers at entry so that they survive the merge with the havoc'd dynamic-call path)
+//@ ghost func gTouchFin(ctx *action.Context) bool = bal(ctx.Balances) == bal(ctx.Balances) && balTotal(ctx.Balances) == balTotal(ctx.Balances) && fund(ctx.ProposalMasterStore.ProposalFund) == fund(ctx.ProposalMasterStore.ProposalFund) && fundBad(ctx.ProposalMasterStore.ProposalFund) == fundBad(ctx.ProposalMasterStore.ProposalFund) && fundSum(ctx.ProposalMasterStore.ProposalFund) == fundSum(ctx.ProposalMasterStore.ProposalFund) && pHas(ctx.ProposalMasterStore.Proposal) == pHas(ctx.ProposalMasterStore.Proposal) && pRec(ctx.ProposalMasterStore.Proposal) == pRec(ctx.ProposalMasterStore.Proposal) && pGoal(ctx.ProposalMasterStore.Proposal) == pGoal(ctx.ProposalMasterStore.Proposal) && fee(ctx.FeePool) == fee(ctx.FeePool) && feeTotal(ctx.FeePool) == feeTotal(ctx.FeePool) && lastTally(ctx.ProposalMasterStore.ProposalVote) == lastTally(ctx.ProposalMasterStore.ProposalVote) && lastTallyPass(ctx.ProposalMasterStore.ProposalVote) == lastTallyPass(ctx.ProposalMasterStore.ProposalVote) && gasOut(ctx.ProposalMasterStore.Proposal.state) == gasOut(ctx.ProposalMasterStore.Proposal.state) && voteSum(ctx.ProposalMasterStore.ProposalVote) == voteSum(ctx.ProposalMasterStore.ProposalVote)
+
+//@ func (FinalizeProposal).Validate
+//@   implements action.Tx
+//@   ensures result0 ==> len(signedTx.Signatures) == 1 && sigOK(rawBytesOf(signedTx.RawTx), unm(signedTx.Data, "FinalizeProposal").ValidatorAddress, signedTx.Signatures[0])   // C04.validate
+//@   exports len(sigs) == 1                                                                                                           // C04.validated-facts
+
+// (no contract on (FinalizeProposal).ProcessCheck: the body is only verified under the C14.engine-limit precondition below)
+//@ func (FinalizeProposal).ProcessFee
+//@   implements action.Tx
+
+// The PASSED + ConfigUpdate path calls a function value from the map ctx.GovUpdate.GovernanceUpdateFunction (the configuration
+// update itself): the engine havocs everything at a dynamic call, so the body is verified for records of the other two types
+// (precondition tagged C14.engine-limit; that the update sits only on the PASSED + ConfigUpdate path is visible in the source,
+// finalizeProposal.go:149-172, but is not a proved clause).
+//@ func runFinalizeProposal
+//@   requires ctxOK(ctx)                                                                                                                // C18.ctx
+//@   assumes gGovCtx(ctx)                                                                                                               // A-GOVCTX proposal stores present and well formed (not yet part of action.ctxOK)
+//@   assumes gFundedInv(ctx, gFinId(tx.Data))                                                                                           // A-STOREINV C14 store invariant (every body ensures it: C14.store-invariant)
+//@   requires (gpHas(ctx, gFinId(tx.Data)) ==> gpRec(ctx, gFinId(tx.Data)).Type != tyConfigUpdate()) && (gfHas(ctx, gFinId(tx.Data)) ==> gfRec(ctx, gFinId(tx.Data)).Type != tyConfigUpdate())   // C14.engine-limit
+//@   assumes gTouchFin(ctx)                                                                                                             // A-ENGINE trivially true (x == x): keeps the entry ledgers across the merge with the havoc'd dynamic-call path
+// already finalised (either way): nothing happens again
+//@   ensures result0 && (old(gzHas(ctx, gFinId(tx.Data))) || old(gzfHas(ctx, gFinId(tx.Data)))) ==> pHas(ctx.ProposalMasterStore.Proposal) == old(pHas(ctx.ProposalMasterStore.Proposal)) && bal(ctx.Balances) == old(bal(ctx.Balances)) && fee(ctx.FeePool) == old(fee(ctx.FeePool)) && fund(gFStore(ctx)) == old(fund(gFStore(ctx)))   // C14.finalize-once
+// otherwise the record is a completed one from the passed or the failed store
+//@   ensures result0 && !old(gzHas(ctx, gFinId(tx.Data))) && !old(gzfHas(ctx, gFinId(tx.Data))) ==> (old(gpHas(ctx, gFinId(tx.Data))) && old(gpRec(ctx, gFinId(tx.Data))).Status == stCompleted()) || (!old(gpHas(ctx, gFinId(tx.Data))) && old(gfHas(ctx, gFinId(tx.Data))) && old(gfRec(ctx, gFinId(tx.Data))).Status == stCompleted())   // C14.finalize-guard
+// branch taken = recorded outcome (the code re-runs the tally with the proposal's own pass percentage instead of reading Outcome)
+//@   claims result0 && !old(gzHas(ctx, gFinId(tx.Data))) && !old(gzfHas(ctx, gFinId(tx.Data))) && lastTally(gVStore(ctx))[gFinId(tx.Data)] == vrPassed() ==> old(gpHas(ctx, gFinId(tx.Data))) && old(gpRec(ctx, gFinId(tx.Data))).Outcome == ocCompletedYes()   // C14.finalize-branch-is-outcome
+//@   claims result0 && !old(gzHas(ctx, gFinId(tx.Data))) && !old(gzfHas(ctx, gFinId(tx.Data))) && lastTally(gVStore(ctx))[gFinId(tx.Data)] == vrFailed() ==> !old(gpHas(ctx, gFinId(tx.Data))) && old(gfRec(ctx, gFinId(tx.Data))).Outcome == ocCompletedNo()   // C14.finalize-branch-is-outcome
+// the record leaves its completed store in the same call
+//@   claims result0 && !old(gzHas(ctx, gFinId(tx.Data))) && !old(gzfHas(ctx, gFinId(tx.Data))) ==> !gpHas(ctx, gFinId(tx.Data)) && !gfHas(ctx, gFinId(tx.Data))   // C14.finalize-leaves-completed-store
+//@   ensures result0 && !old(gzHas(ctx, gFinId(tx.Data))) && !old(gzfHas(ctx, gFinId(tx.Data))) ==> gzHas(ctx, gFinId(tx.Data)) || gzfHas(ctx, gFinId(tx.Data))   // C14.finalize-recorded
+// funds are distributed at most once: a record filed as finalized has a zero total
+//@   ensures result0 && !old(gzHas(ctx, gFinId(tx.Data))) && gzHas(ctx, gFinId(tx.Data)) ==> fund(gFStore(ctx))[totKey(gFinId(tx.Data))] == 0   // C14.funds-deleted
+// consistent case (record in the passed store and the re-run tally says PASSED): it leaves the passed store in this call
+//@   ensures result0 && !old(gzHas(ctx, gFinId(tx.Data))) && !old(gzfHas(ctx, gFinId(tx.Data))) && old(gpHas(ctx, gFinId(tx.Data))) && lastTally(gVStore(ctx))[gFinId(tx.Data)] == vrPassed() ==> !gpHas(ctx, gFinId(tx.Data))   // C14.finalize-leaves-passed
+//@   ensures result0 && !old(gzHas(ctx, gFinId(tx.Data))) && !old(gzfHas(ctx, gFinId(tx.Data))) ==> lastTallyPass(gVStore(ctx))[gFinId(tx.Data)] == (old(gpHas(ctx, gFinId(tx.Data))) ? old(gpRec(ctx, gFinId(tx.Data))).PassPercentage : old(gfRec(ctx, gFinId(tx.Data))).PassPercentage)   // C14.finalize-pass-percentage
+
+// internal transactions: app.ExpireProposals / app.FinalizeProposals call these two statically, without Validate (internal
+// transactions carry no signatures). ASSUMED: the same frame action.Tx.ProcessDeliver gives at interface call sites, whose
+// granted part rests on the forbids call-graph check that covers every implementation of action.Tx (these two included).
+//@ assume func (ExpireVotes).ProcessDeliver
+//@   requires ctx != nil && sessOpen(ctx.State) && wfState(ctx.State)                                                                 // C06.session
+//@   modifies vHas(ctx.State), vVal(ctx.State)
+//@   ensures sessOpen(ctx.State) && bHas(ctx.State) == old(bHas(ctx.State)) && bVal(ctx.State) == old(bVal(ctx.State)) && wfState(ctx.State)   // C06.handler-frame
+
+//@ assume func (FinalizeProposal).ProcessDeliver
+//@   requires ctx != nil && sessOpen(ctx.State) && wfState(ctx.State)                                                                 // C06.session
+//@   modifies vHas(ctx.State), vVal(ctx.State)
+//@   ensures sessOpen(ctx.State) && bHas(ctx.State) == old(bHas(ctx.State)) && bVal(ctx.State) == old(bVal(ctx.State)) && wfState(ctx.State)   // C06.handler-frame
+
